@@ -501,14 +501,26 @@ def known_key(case: dict, real: list[str], why: str) -> str:
 
 
 def _gen_spec(rng) -> dict:
-    k = rng.choice(["sepinc", "sepinc", "fixinc", "line", "json", "struct", "ntstruct", "b64", "zlib", "bz2", "autosep", "fixed",
+    """every serializer in one-shot mode, each also with debug=True (error reports carry error_info), wrappers with debug
+    inner serializers, packets that keep their deserialize() argument, file toys with every expected_load_error set"""
+    spec = _gen_spec0(rng)
+    if spec["k"] not in ("sepinc", "fixinc") and rng.random() < 0.3:
+        spec["debug"] = True
+    if "inner" in spec and rng.random() < 0.3:
+        spec["inner"] = {**spec["inner"], "debug": True}
+    return spec
+
+
+def _gen_spec0(rng) -> dict:
+    k = rng.choice(["sepinc", "sepinc", "fixinc", "line", "line", "json", "struct", "ntstruct", "b64", "zlib", "bz2", "autosep", "fixed",
                     "filetoy", "pickle"])
     if k == "sepinc":
-        return {"k": "sepinc", "sep": rng.choice(["0a", "0d0a", "7c7c"]), "limit": rng.choice([8, 16, 64]), "keep_end": rng.random() < 0.3}
+        return {"k": "sepinc", "sep": rng.choice(["0a", "0d0a", "7c7c", "3c7c3e", "61626364"]), "limit": rng.choice([8, 16, 64]), "keep_end": rng.random() < 0.3}
     if k == "fixinc":
         return {"k": "fixinc", "size": rng.choice([1, 3, 5])}
     if k == "line":
-        return {"k": "line", "newline": rng.choice(["LF", "CRLF"]), "keep_end": rng.random() < 0.3, "encoding": "utf-8", "limit": 64}
+        return {"k": "line", "newline": rng.choice(["LF", "CRLF", "CRLF", "CR"]), "keep_end": rng.random() < 0.3,
+                "encoding": rng.choice(["utf-8", "ascii"]), "limit": 64}
     if k == "json":
         return {"k": "json", "use_lines": rng.random() < 0.5, "limit": 1024}
     if k == "struct":
@@ -519,15 +531,25 @@ def _gen_spec(rng) -> dict:
                         {"k": "line", "newline": "LF", "limit": 65536, "encoding": "utf-8"}])
     if k == "b64":
         return {"k": "b64", "inner": inner, "alphabet": rng.choice(["standard", "urlsafe"]), "checksum": rng.random() < 0.5,
-                "separator": "0d0a", "limit": 65536}
+                "separator": rng.choice(["0d0a", "0d0a", "3c7c3e", "0a"]), "limit": 65536}
     if k in ("zlib", "bz2"):
         return {"k": k, "inner": inner}
     if k == "autosep":
-        return {"k": "autosep", "sep": rng.choice(["0a", "0d0a"]), "limit": 64, "check": True}
+        spec = {"k": "autosep", "sep": rng.choice(["0a", "0d0a", "3c7c3e", "0d0a0d0a"]), "limit": 64, "check": True}
+        if rng.random() < 0.3:
+            spec["hold"] = rng.choice(["arg", "text"])
+        return spec
     if k == "fixed":
-        return {"k": "fixed", "size": rng.choice([1, 3, 8])}
+        spec = {"k": "fixed", "size": rng.choice([1, 3, 8])}
+        if rng.random() < 0.3:
+            spec["hold"] = rng.choice(["arg", "text"])
+        return spec
     if k == "filetoy":
-        return {"k": "filetoy", "limit": 256}
+        spec = {"k": rng.choice(sers.FILE_TOYS), "limit": 256}
+        e = rng.choice(sers.EXPECTED_KEYS)
+        if e != "toy":
+            spec["expected"] = e
+        return spec
     return {"k": "pickle"}
 
 
@@ -606,6 +628,16 @@ def corpus() -> list[dict]:
         out.append({"kind": "seq", "spec": sp, "api": api,
                     "datagrams": ["61620d0a", "61620d0a63640d0a", "6162", "0d0a", "61620d0a"], "valid": [sers.enc_val(b"ab"), None, None, None, sers.enc_val(b"ab")],
                     "kinds": ["valid", "merged", "truncated", "random", "valid"], "send": [sers.enc_val(b"xy")], "conv": False})
+    # line serializer, one-shot: packets ending with PARTS of the newline sequence (lone CR / LF with CRLF; the other
+    # control character with CR / LF) must come back unchanged; only whole trailing newline sequences are an encoding detail
+    for nl, texts in (("CRLF", ["abc\r", "abc\n", "\r", "\n", "x\n\r", "a\rb", "\r\na", "\n\n\r"]), ("CR", ["abc\n", "\n", "a\rb"]), ("LF", ["abc\r", "\r", "a\nb"])):
+        for dbg in (False, True):
+            spec = {"k": "line", "newline": nl, "keep_end": False, "encoding": "ascii", "limit": 64, "debug": dbg}
+            ser = _build(spec)
+            for api in ("sync", "async"):
+                out.append({"kind": "seq", "spec": spec, "api": api, "datagrams": [ser.serialize(t).hex() for t in texts],
+                            "valid": [sers.enc_val(t) for t in texts], "kinds": ["valid"] * len(texts),
+                            "send": [sers.enc_val(t) for t in texts], "conv": api == "async"})
     return out
 
 
